@@ -370,9 +370,16 @@ def r4_protocol(rule, root=None):
     params = [A.binding_name(i["pat"]) for i in fn["sig"]["inputs"] if "pat" in i]
     m = _alloc_match(fn, [params[0]])
     seen = {}
+    alts = []
     for arm in m["arms"]:
-        kinds = alloc_kinds(arm["pat"])
-        label = kinds[0][0] if kinds else "?"
+        for alt in A.flatten_or(arm["pat"]):
+            alts.append((arm, alt))
+    for arm, alt in alts:
+        kinds = alloc_kinds(alt)
+        if not kinds:
+            segs_, _subs = A.pat_variant(alt)
+            kinds = [((segs_ or ["?"])[-1], None)]
+        label = kinds[0][0]
         seen[(label, False)] = arm
         ev = arm_events(arm)
         # single-expression arm: `self.out.push(..)` is the tail
